@@ -157,6 +157,10 @@ class Limit:
             return
 
         sb_idx = self._idx_to_sb_idx(index)
+        if sb_idx >= len(self._scoreboard):
+            # The scheduler may extend the project beyond its declared end; the limit
+            # holds there as well, so the counters grow with the horizon
+            self._scoreboard.extend([0] * (sb_idx + 1 - len(self._scoreboard)))
         if 0 <= sb_idx < len(self._scoreboard):
             self._dirty = True
             self._scoreboard[sb_idx] += 1
